@@ -64,6 +64,8 @@ pub struct Scn<T: Payload> {
     s0: u32,
     r0: u32,
     pub grace: Duration,
+    /// histories longer than this are judged by the n log n oracles only
+    pub lin_max_events: usize,
     t_start: Instant,
     pub hits0: [u64; kanal::verif::N_POINTS],
 }
@@ -92,7 +94,7 @@ impl<T: Payload> Scn<T> {
         let slot = stuck::slot(MAIN_SLOT);
         slot.begin_thread();
         main.status = Some(slot);
-        Scn { cap, main, workers: vec![], viols: vec![], inconclusive: None, main_regs: vec![], s0: 1, r0: 1, grace: Duration::from_secs(if cfg!(miri) { 10_000_000 } else { 20 }), t_start: Instant::now(), hits0: fp::hits() }
+        Scn { cap, main, workers: vec![], viols: vec![], inconclusive: None, main_regs: vec![], s0: 1, r0: 1, grace: Duration::from_secs(if cfg!(miri) { 10_000_000 } else { 20 }), lin_max_events: 80, t_start: Instant::now(), hits0: fp::hits() }
     }
     pub fn hits(&self) -> [u64; kanal::verif::N_POINTS] {
         fp::hits_delta(&self.hits0)
@@ -207,13 +209,18 @@ impl<T: Payload> Scn<T> {
         self.workers[w].regs.push((k, now()));
     }
 
-    pub fn wait_hits(&mut self, point: u32, at_least: u64) -> bool {
-        tr!("wait_hits {} >= {}", kanal::verif::POINT_NAMES[point as usize], at_least);
+    /// waits until failpoint `point` has been passed `at_least` times (by worker `w`: gives up, without a
+    /// verdict, if that worker returns first)
+    pub fn wait_hits(&mut self, w: usize, point: u32, at_least: u64) -> bool {
+        tr!("wait_hits w={} {} >= {}", w, kanal::verif::POINT_NAMES[point as usize], at_least);
         let t0 = Instant::now();
         let mut spins = 0;
         while self.hits()[point as usize] < at_least {
-            if t0.elapsed() > self.grace {
-                self.inconclusive = Some(format!("failpoint {} was not reached {} time(s) within {:?}", kanal::verif::POINT_NAMES[point as usize], at_least, self.grace));
+            if self.worker_finished(w) || t0.elapsed() > self.grace {
+                if self.hits()[point as usize] >= at_least {
+                    return true;
+                }
+                self.inconclusive = Some(format!("failpoint {} was not reached {} time(s) (scenario state not constructed)", kanal::verif::POINT_NAMES[point as usize], at_least));
                 return false;
             }
             Self::pause(&mut spins);
@@ -223,12 +230,24 @@ impl<T: Payload> Scn<T> {
     pub fn wait_arrived(&mut self, w: usize, point: u32) -> bool {
         tr!("wait_arrived w={} {}", w, kanal::verif::POINT_NAMES[point as usize]);
         let r = self.role_of(w);
-        if !fp::wait_arrived(r, point, self.grace) {
-            // not a verdict: the path simply did not go through this point
-            self.inconclusive = Some(format!("worker {} never arrived at failpoint {}", w, kanal::verif::POINT_NAMES[point as usize]));
-            return false;
+        let t0 = Instant::now();
+        let mut spins = 0;
+        loop {
+            if fp::is_arrived(r, point) {
+                return true;
+            }
+            // not a verdict: the worker's call simply did not go through this point (e.g. the deadline had
+            // already passed before it registered) or did not get there in time
+            if self.worker_finished(w) || t0.elapsed() > self.grace {
+                fp::disarm(r, point);
+                if fp::is_arrived(r, point) {
+                    return true;
+                }
+                self.inconclusive = Some(format!("worker {} did not pass failpoint {} (scenario state not constructed)", w, kanal::verif::POINT_NAMES[point as usize]));
+                return false;
+            }
+            Self::pause(&mut spins);
         }
-        true
     }
     pub fn arm(&self, w: usize, point: u32) {
         fp::arm(self.role_of(w), point)
@@ -251,7 +270,10 @@ impl<T: Payload> Scn<T> {
         if self.workers[w].ctx.is_some() {
             return true;
         }
-        let jh = self.workers[w].jh.take().unwrap();
+        let jh = match self.workers[w].jh.take() {
+            Some(j) => j,
+            None => return false, // already found stuck
+        };
         let t0 = Instant::now();
         let mut spins = 0;
         while !jh.is_finished() {
@@ -332,7 +354,7 @@ impl<T: Payload> Scn<T> {
         for v in oracles::check_all(&h, ledger(), obs) {
             viols.push((v.prop.to_string(), v.msg));
         }
-        if viols.is_empty() {
+        if viols.is_empty() && events.len() <= self.lin_max_events {
             let mut m = RefChan::new(self.cap);
             m.sc = self.s0;
             m.rc = self.r0;
